@@ -113,7 +113,19 @@ func genContent(ch *core.Chooser, hosts []string, bufHint int, maxLines int) str
 		case c == 13:
 			line = workload.GenRule(ch, workload.KInvalid, hosts, nil)
 		case c == 14:
-			line = workload.GenRule(ch, workload.KHostV4, hosts, nil) + "\r" // a stray CR
+			// stray carriage returns: trailing, leading, or in the middle of
+			// a line (only LF ends a line)
+			r := workload.GenRule(ch, workload.KHostV4, hosts, nil)
+			switch ch.Intn("content.cr", 4) {
+			case 0:
+				line = r + "\r"
+			case 1:
+				line = "\r" + r
+			case 2:
+				line = r + "\r" + hosts[0]
+			default:
+				line = "||" + hosts[0] + "^\r$important"
+			}
 		default:
 			line = workload.GenRule(ch, workload.KCosmetic, hosts, nil)
 		}
